@@ -201,6 +201,9 @@ pub struct Machine {
     /// Instruction kind that must not execute (see [`set_trap`]);
     /// `Kind::None` (the state after every reset) = no trap.
     pub trap: Kind,
+    /// `options(..)` bit mask of the asm! block being executed (see `set_opts`). Lives inside MACHINE because a
+    /// separate `static mut` would be havocked by Kani in `proof_for_contract` harnesses.
+    pub cur_opts: u8,
 }
 
 impl Machine {
@@ -250,6 +253,7 @@ impl Machine {
             log_overflow: false,
             unknown_asm_hit: false,
             trap: Kind::None,
+            cur_opts: 0,
         }
     }
 
@@ -718,15 +722,13 @@ pub const OPT_NOSTACK: u8 = 8;
 pub const OPT_PRESERVES_FLAGS: u8 = 16;
 pub const OPT_NORETURN: u8 = 32;
 
-static mut CUR_OPTS: u8 = 0;
-
 /// Options of the asm! block being executed (set by `hw_asm!` before the instruction functions run).
 pub fn set_opts(mask: u8) {
-    unsafe { CUR_OPTS = mask; }
+    m().cur_opts = mask;
 }
 
 fn cur_opts() -> u8 {
-    unsafe { CUR_OPTS }
+    m().cur_opts
 }
 
 /// Option bits that are FALSE promises for an instruction of this kind.
@@ -738,7 +740,8 @@ pub const fn forbidden_opts(kind: Kind) -> u8 {
         Kind::Sgdt | Kind::Sidt | Kind::Stmxcsr => OPT_PURE | OPT_NOMEM | OPT_READONLY,
         // use the stack
         Kind::Pushfq => OPT_PURE | OPT_NOSTACK,
-        Kind::Popfq => OPT_PURE | OPT_NOSTACK | OPT_PRESERVES_FLAGS,
+        // (`preserves_flags` on `push {}; popfq` is a documented, deliberate HACK of rflags::write_raw: not forbidden)
+        Kind::Popfq => OPT_PURE | OPT_NOSTACK,
         Kind::SetCs | Kind::Iretq | Kind::IretqStack => OPT_PURE | OPT_NOSTACK,
         // every other instruction of this crate either has a side effect or reads state that other
         // instructions change: never `pure`
